@@ -253,10 +253,62 @@ LEGACY_STATES = {"get_x0_1q": "x0", "get_x1_1q": "x1", "get_y0_1q": "y0", "get_y
                  "get_bell_2q": "bell_phi_plus"}
 
 
+def _y10(ctx, rep, ce):
+    """is_valid_state_name(n) is True exactly for the catalogued names: evaluated (constant interpretation of the catalogue code) on every
+    catalogued name and on uncatalogued probes built from catalogued parts (mixed qubit / qutrit products, too many factors)"""
+    ix = ctx.ix
+    g = ix.funcs.get(ST + "is_valid_state_name")
+    allf = ix.funcs.get(ST + "get_state_names")
+    if g is None or allf is None:
+        return
+    rep.rule("Y10", "the state-name guard accepts exactly the catalogue: is_valid_state_name(n) == (n in get_state_names()) for every catalogued "
+                    "name and for uncatalogued names assembled from catalogued parts", floor=2)
+    try:
+        R = list(ce.call(allf, []))
+    except NotConst as ex:
+        rep.undecided("Y10", allf, "catalogue", "not constant: %s" % ex)
+        return
+    Rset = set(R)
+    singles = [n for n in R if "_" not in n]
+    probes = []
+    import itertools as _it
+    some = singles[:4] + singles[-4:]
+    for a, b in _it.product(some, repeat=2):
+        probes.append(a + "_" + b)
+    for a, b, c in _it.product(some[:3] + some[-3:], repeat=3):
+        probes.append("_".join((a, b, c)))
+    probes += ["_".join([singles[0]] * 4), singles[0] + "_", "_" + singles[0], "", "no_such_state", singles[0].upper()]
+    probes = [p for p in dict.fromkeys(probes) if p not in Rset]
+    rejected_cat, accepted_probe, nc = [], [], []
+    for n in R:
+        try:
+            ce.steps = 0
+            if ce.call(g, [n]) is not True:
+                rejected_cat.append(n)
+        except NotConst as ex:
+            nc.append((n, str(ex)[:60]))
+    for n in probes:
+        try:
+            ce.steps = 0
+            if ce.call(g, [n]) is not False:
+                accepted_probe.append(n)
+        except NotConst as ex:
+            nc.append((n, str(ex)[:60]))
+    if nc:
+        rep.undecided("Y10", g, "guard evaluation", "%d name(s) outside the constant fragment, e.g. %s" % (len(nc), nc[0]))
+        return
+    rep.check(not rejected_cat, "Y10", g, "%d catalogued names accepted" % len(R), "all accepted",
+              "the guard rejects catalogued name(s) %s" % rejected_cat[:5], node=g.node)
+    rep.check(not accepted_probe, "Y10", g, "%d uncatalogued probes rejected" % len(probes), "all rejected",
+              "the guard accepts %d name(s) that are in no catalogue, e.g. %s: an uncatalogued name is then looked up / generated instead of raising"
+              % (len(accepted_probe), accepted_probe[:4]), node=g.node)
+
+
 def run_states(ctx, rep):
     ix = ctx.ix
     ce = ConstEval(ctx, max_depth=10)
     thorough = ctx.tier == "thorough"
+    _y10(ctx, rep, ce)
     rep.rule("Y8", "named states: every catalogued pure-state vector is normalised and its density matrix is v v^†; x/y/z names are the "
                    "+1 / -1 eigenvectors of the Pauli matrix they name; a composite name a_b is the Kronecker product of its parts; the "
                    "four Bell names have the stabiliser signs their names say; the legacy constructors of state.py / gate.py hold the same "
